@@ -197,6 +197,11 @@ func (g *reflGen) expr(depth int) *typgen.Expr {
 		return e
 	case 7:
 		return g.named(false)
+	case 8:
+		if depth >= 2 {
+			// two look-alike struct types in one expression (named leaves stay: they must exist in the compiled catalog)
+			return typgen.TwinStructWith(g.r, g.expr, depth, nil)
+		}
 	}
 	return g.expr(depth - 1)
 }
